@@ -203,8 +203,17 @@ func TestGrammarExhaustive(t *testing.T) {
 
 var gramTokens = []string{"/", "/", "a", "ab", "{", "}", "*", "{p}", "{ab}", "{abc}", "{abcd}", "*{c}", "*{cd}", "*{cde}", ".", "-", "1", "{}", "*{}", "**", "x{p}", "x*{c}", "{p}x", "{a.b}", "{a/b}", "com", "é", "%2F", "}{", "*}"}
 
+func soup(t *rapid.T, toks []string, lo, hi int) string {
+	n := gen.IntR(t, lo, hi, "ntok")
+	var sb strings.Builder
+	for i := 0; i < n; i++ {
+		sb.WriteString(gen.Pick(t, toks, "tok"))
+	}
+	return sb.String()
+}
+
 func genLimits(t *rapid.T) (int, int) {
-	return rapid.SampledFrom([]int{-1, -1, 0, 1, 2, 3}).Draw(t, "maxParams"), rapid.SampledFrom([]int{-1, -1, 0, 1, 2, 3}).Draw(t, "maxKey")
+	return gen.Pick(t, []int{-1, -1, 0, 1, 2, 3}, "maxParams"), gen.Pick(t, []int{-1, -1, 0, 1, 2, 3}, "maxKey")
 }
 
 func TestGrammarRandom(t *testing.T) {
@@ -212,35 +221,35 @@ func TestGrammarRandom(t *testing.T) {
 		c := &GramCase{}
 		c.MaxParams, c.MaxKey = genLimits(t)
 		var p string
-		switch rapid.IntRange(0, 3).Draw(t, "shape") {
+		switch gen.IntR(t, 0, 3, "shape") {
 		case 0: // token soup
-			p = strings.Join(rapid.SliceOfN(rapid.SampledFrom(gramTokens), 1, 10).Draw(t, "toks"), "")
+			p = soup(t, gramTokens, 1, 10)
 		case 1: // a valid generated pattern, possibly damaged by one edit
 			p = gen.Pattern(t, nil, 1, false)
 			if rapid.Bool().Draw(t, "damage") && len(p) > 0 {
-				i := rapid.IntRange(0, len(p)-1).Draw(t, "pos")
-				p = p[:i] + rapid.SampledFrom([]string{"", "{", "}", "*", "/", ".", "-"}).Draw(t, "ins") + p[i+rapid.IntRange(0, 1).Draw(t, "del"):]
+				i := gen.IntR(t, 0, len(p)-1, "pos")
+				p = p[:i] + gen.Pick(t, []string{"", "{", "}", "*", "/", ".", "-"}, "ins") + p[i+gen.IntR(t, 0, 1, "del"):]
 			}
 		case 2: // long hosts: labels around 63 bytes, totals around 255, names around the key limit
-			nl := rapid.IntRange(1, 6).Draw(t, "nlabels")
+			nl := gen.IntR(t, 1, 6, "nlabels")
 			var labs []string
 			for i := 0; i < nl; i++ {
-				l := strings.Repeat("a", rapid.SampledFrom([]int{1, 30, 50, 62, 63, 64}).Draw(t, "ll"))
-				if rapid.IntRange(0, 3).Draw(t, "lp") == 0 {
-					l += "{" + strings.Repeat("n", rapid.IntRange(1, 4).Draw(t, "nl")) + "}"
+				l := strings.Repeat("a", gen.Pick(t, []int{1, 30, 50, 62, 63, 64}, "ll"))
+				if gen.IntR(t, 0, 3, "lp") == 0 {
+					l += "{" + strings.Repeat("n", gen.IntR(t, 1, 4, "nl")) + "}"
 				}
 				labs = append(labs, l)
 			}
 			p = strings.Join(labs, ".") + gen.Path(t, 2)
 		default: // many parameters / long names around the limits
-			np := rapid.IntRange(0, 5).Draw(t, "np")
+			np := gen.IntR(t, 0, 5, "np")
 			var sb strings.Builder
 			for i := 0; i < np; i++ {
 				sb.WriteString("/")
 				if rapid.Bool().Draw(t, "catch") && i%2 == 0 {
 					sb.WriteString("x*")
 				}
-				sb.WriteString("{" + strings.Repeat("k", rapid.IntRange(1, 4).Draw(t, "kl")) + fmt.Sprint(i) + "}")
+				sb.WriteString("{" + strings.Repeat("k", gen.IntR(t, 1, 4, "kl")) + fmt.Sprint(i) + "}")
 			}
 			p = sb.String() + "/"
 		}
@@ -345,7 +354,7 @@ var pathValueAlphabet = []string{"a", "b", "Z", "0", "-", ".", ":", "%", "}", "~
 var hostValueAlphabet = []string{"a", "b", "z", "0", "-", "_", "~", "ab", "xyz"}
 
 func genValue(t *rapid.T, alpha []string) string {
-	return strings.Join(rapid.SliceOfN(rapid.SampledFrom(alpha), 1, 4).Draw(t, "val"), "")
+	return soup(t, alpha, 1, 4)
 }
 
 func genRoundTrip(t *rapid.T, p string) *RoundTrip {
@@ -355,7 +364,7 @@ func genRoundTrip(t *rapid.T, p string) *RoundTrip {
 		case w.InHost:
 			c.Values = append(c.Values, genValue(t, hostValueAlphabet))
 		case w.CatchAll:
-			n := rapid.IntRange(1, 3).Draw(t, "nsegs")
+			n := gen.IntR(t, 1, 3, "nsegs")
 			var segs []string
 			for i := 0; i < n; i++ {
 				segs = append(segs, genValue(t, pathValueAlphabet))
@@ -366,7 +375,7 @@ func genRoundTrip(t *rapid.T, p string) *RoundTrip {
 		}
 	}
 	if p[0] != '/' {
-		c.Port = rapid.SampledFrom([]string{"", "", ":80", ".", ".:8443"}).Draw(t, "port")
+		c.Port = gen.Pick(t, []string{"", "", ":80", ".", ".:8443"}, "port")
 	}
 	return c
 }
@@ -375,7 +384,7 @@ func TestRoundTrip(t *testing.T) {
 	rapid.Check(t, func(t *rapid.T) {
 		var p string
 		if rapid.Bool().Draw(t, "soup") {
-			p = strings.Join(rapid.SliceOfN(rapid.SampledFrom(gramTokens), 1, 8).Draw(t, "toks"), "")
+			p = soup(t, gramTokens, 1, 8)
 			if p == "" || (p[0] != '/' && rapid.Bool().Draw(t, "root")) {
 				p = "/" + p
 			}
